@@ -2,7 +2,7 @@
 ID = "C17"
 PROPS = "Props/C17.v"
 COQ_TIMEOUT = 5400   # Coq build of this property incl. rebuilt dependencies; generous: on a loaded machine a rebuild after an upstream edit took > 1500 s
-GEN = ["pkcs7", "rc2tables", "dec"]
+GEN = ["pkcs7", "rc2tables", "dec", "sm2", "sm2sig"]   # every Gen file in the Coq closure of Props/C17.v is regenerated
 LEGS = [{"driver": "c17", "runner": ("p12", "Extract/ExtractP12.v", "P12w"), "timeout": 3000},
         {"driver": "c17m", "runner": ("p12", "Extract/ExtractP12.v", "P12w"), "timeout": 3000}]
 
@@ -15,7 +15,7 @@ LEVEL_TEXT = ("Theorems in Coq (Props/C17.v): for every content, recipient list 
               "DER SET OF attributes / content signature, certificate lookup and algorithm lookup succeed (algorithm tables generated from "
               "pkcs7.go: both SM3 OIDs map to SM3); the signing side (NewSignedData / AddSigner with sorted signed attributes / Finish) produces, for every content, "
               "signer set with distinct certificates and extra attributes, signed data that Verify accepts (relative to the correctness of the signature scheme - for SM2 "
-              "discharged by C01's Sign-then-Verify theorem - and the DER codecs), and the same signer infos around another content are accepted only on a digest collision; unpad total and inverse to pad; PKCS#12 decoding passes getSafeContents only with "
+              "discharged by C01's Sign-then-Verify theorem - and the DER codecs), and the same signer infos around another content are accepted only on a digest collision, and a later Verify of the same certificates and signer infos with another content accepts only if each signer's digest of that content equals the one verified before (Verify has no memory: C17_verify_again_other_content; the driver replays call histories on one parsed object); unpad total and inverse to pad; PKCS#12 decoding passes getSafeContents only with "
               "HMAC(KDF(password)) matching the received authenticated safe; the PKCS#12 KDF model equals RFC 7292 B.2; BMPString encoding "
               "round-trips; RC2 decrypt(encrypt(b)) = b for all keys and blocks. The real packages are run on round trips, strangers, wrong "
               "keys, wrong passwords, altered content/attribute/signature and single-byte corruptions, decided by the predicate.")
@@ -52,7 +52,7 @@ ASSUMPTIONS = [
     "DER encoding/decoding of the container structures by encoding/asn1 is the identity on the decoded structures",
     "hash, HMAC-SHA1, signature verification are functions (no collision / forgery statement is made: theorems conclude equalities of MACs / digests)",
 ]
-RULE = ("(round 4: SM2 keys with 31/30/29 significant scalar bytes and a public coordinate with a leading zero in the PKCS#12 round trips, compared by scalar and point; class PF: 29 structural forgeries of a PKCS#12 container without the password - macData removed, duplicated, moved or altered, safes reordered / dropped / duplicated, the encrypted certificate safe replaced by a plain one - must be refused or decode to exactly the owner's key and certificate) (audit round 2: hand-built RSA signers with and without signed attributes; VER cases carry the outcome the property states; SEL decided by an independent rule on the recipient list; a DES-CBC 'diff' after a single-byte corruption is accepted only inside IV / ciphertext / RSA-wrapped key; corruption offsets and replacement values rotate with the seed) enveloped: contents of 0,1,7,8,9,15,16,17,31,32,33,100,1000,4096 bytes and 65536 (thorough: more sizes up to 64 KiB), tails that look like "
+RULE = ("(round 6: call histories on ONE parsed signed-data object - Verify, change p7.Content (genuine -> forged -> genuine -> one bit altered, none / empty -> genuine -> longer, forged -> genuine, attached content replaced or altered in place), Verify again, 2-5 calls, 7 signer kinds with and without signed attributes, attached and detached: every call must give the verdict of a single Verify with the content present at that call, which the extracted model of Verify computes and the case states) (round 4: SM2 keys with 31/30/29 significant scalar bytes and a public coordinate with a leading zero in the PKCS#12 round trips, compared by scalar and point; class PF: 29 structural forgeries of a PKCS#12 container without the password - macData removed, duplicated, moved or altered, safes reordered / dropped / duplicated, the encrypted certificate safe replaced by a plain one - must be refused or decode to exactly the owner's key and certificate) (audit round 2: hand-built RSA signers with and without signed attributes; VER cases carry the outcome the property states; SEL decided by an independent rule on the recipient list; a DES-CBC 'diff' after a single-byte corruption is accepted only inside IV / ciphertext / RSA-wrapped key; corruption offsets and replacement values rotate with the seed) enveloped: contents of 0,1,7,8,9,15,16,17,31,32,33,100,1000,4096 bytes and 65536 (thorough: more sizes up to 64 KiB), tails that look like "
         "padding, DES-CBC and AES-128-GCM, SM2 (both orderings) and RSA recipients, 1-3 recipients, stranger certificate, recipient certificate "
         "with another private key; signed: SM2 signers with SM3 (both OIDs) and SHA-256, with/without signed attributes, attached/detached, "
         "library-made RSA signed data; content / signing-time attribute / signature / certificate altered; PKCS#12: passwords empty, ASCII, "
@@ -225,6 +225,15 @@ def predicate(f, io):
         if io[0] not in ("ok", "err"):
             return False, "Verify did not return"
         exp = [x[4:] for x in f if x.startswith("exp=")]
+        hist = [x[5:] for x in f if x.startswith("hist=")]
+        if hist and exp and exp[0] in ("ok", "err") and io[0] != exp[0]:
+            # call history on ONE parsed object: earlier Verify calls with other contents, then this one; Verify has no
+            # memory - the verdict is the one of a single Verify with the content present at this call
+            n = len(hist[0][2:].split(","))
+            return False, (("after %d earlier Verify call(s) on the same parsed object with other contents, Verify with the genuine content fails" % n)
+                           if exp[0] == "ok" else
+                           ("after %d earlier Verify call(s) on the same parsed object, Verify accepts a content that was not signed "
+                            "(Content %s between the calls)" % (n, "altered in place" if hist[0][0] == "i" else "replaced")))
         if exp and exp[0] in ("ok", "err") and io[0] != exp[0]:
             return False, ("genuine signed data does not verify" if exp[0] == "ok"
                            else "signed data with altered content, missing signer certificate or altered signature verifies")
